@@ -84,14 +84,21 @@ pub fn replay(args: &Args) -> i32 {
             continue;
         }
         let case: Value = serde_json::from_str(&line).unwrap();
-        let ops: Vec<Op> = case["ops"]
-            .as_array()
-            .unwrap()
-            .iter()
-            .map(|o| op_from_json(o, &mis, &corr))
-            .collect();
+        // either the operations one by one (with the bins the specification computed), or in
+        // run-length form [[op, count], ...] without bins (long runs: the oracle is losslessness)
+        let ops: Vec<Op> = if let Some(rle) = case.get("rle").and_then(|x| x.as_array()) {
+            let mut v = Vec::new();
+            for it in rle {
+                let o = op_from_json(&it[0], &mis, &corr);
+                for _ in 0..it[1].as_u64().unwrap_or(1) { v.push(o.clone()); }
+            }
+            v
+        } else {
+            case["ops"].as_array().unwrap().iter().map(|o| op_from_json(o, &mis, &corr)).collect()
+        };
+        let with_bins = case.get("bins").is_some();
         n += 1;
-        let expect = rename_spec_bins(&case["bins"]);
+        let expect = if with_bins { rename_spec_bins(&case["bins"]) } else { Vec::new() };
         let r = guarded(|| cabac_roundtrip(&ops));
         let verdict = match &r {
             Err(p) => Some(format!("panic: {}", p)),
@@ -101,9 +108,9 @@ pub fn replay(args: &Args) -> i32 {
                 let db: Vec<(i32, bool)> = t.dec_bins.iter().map(|b| (b.ctx, b.bit)).collect();
                 if t.decoded != ops {
                     Some("decoded operations differ from encoded operations".to_string())
-                } else if eb != expect {
+                } else if with_bins && eb != expect {
                     Some("encoder bins differ from the specification".to_string())
-                } else if db != expect {
+                } else if with_bins && db != expect {
                     Some("decoder bins differ from the specification".to_string())
                 } else {
                     None
@@ -117,12 +124,14 @@ pub fn replay(args: &Args) -> i32 {
         }) {
             nontrivial.insert(fnv(line.as_bytes()));
         }
-        if sample.is_none() && ops.len() >= 2 {
+        if sample.is_none() && ops.len() >= 2 && with_bins {
             sample = Some(case["ops"].clone());
         }
         if let Some(why) = verdict {
             bad += 1;
             let observed = match &r {
+                Ok(Some(t)) if t.decoded.len() > 5000 => json!({"decoded_len": t.decoded.len(), "encoded_len": ops.len(),
+                    "first_difference": t.decoded.iter().zip(ops.iter()).position(|(a, b)| a != b)}),
                 Ok(Some(t)) => json!({
                     "decoded": t.decoded.iter().map(op_to_json).collect::<Vec<_>>(),
                     "enc_bins": bins_json(&t.enc_bins),
